@@ -430,7 +430,10 @@ def _idle_at(f, c):
             if not f.dominates_pos(f.node_pos(s_.node), f.node_pos(c)) and not fin.always_before(f, f.node_pos(c), [s_.node]):
                 continue
             kr = fin.key(f, s_.rhs)
-            if any(a[0] != "case" and not a[1] and fin.key(f, a[0]) == kr for a in atoms) and \
+            def says_null(a):
+                nt = fin.null_test(f, a[0])      # `next` false, `next == 0` true, `next != 0` false ...
+                return nt is not None and nt[0] == kr and (nt[1] == 0) == bool(a[1])
+            if any(a[0] != "case" and says_null(a) for a in atoms) and \
                not any(o.node != s_.node and re.search(r"(\.|->)activation$", q.no_casts(f.r(o.lhs))) and q.reaches(f, s_.node, o.node) and q.reaches(f, o.node, c) for o in q.stores(f)):
                 idle = True
     return idle, atoms
